@@ -408,6 +408,18 @@ impl<'a> Model<'a> {
         if res == OpRes::Err(ErrKind::InvalidPacket) && !self.trs[tr].hostile && !self.tr_has_raw(tr) {
             self.bad("C04", "C04/valid-inbound-rejected", format!("op {op} ({kind:?}) returned InvalidPacket although the broker sent only valid packets"));
         }
+        // poll()/recv()/drive() serve what the client owes; a local resource error there means an
+        // owed acknowledgement (or a replay) is blocked behind missing arena space / slots
+        if matches!(kind, OpKind::Poll | OpKind::Recv | OpKind::Drive)
+            && matches!(res, OpRes::Err(ErrKind::BufferTooSmall | ErrKind::InflightExhausted | ErrKind::NotReady))
+            && !self.trs[tr].hostile
+        {
+            if let Some(o) = self.owed.front().copied() {
+                self.bad("C04", format!("C04/ack-blocked-by-resource-error/type={}", o.ptype), format!("op {op} ({kind:?}) returned {res:?} while the acknowledgement type {} for inbound id {} is owed: acknowledgements must not depend on free transmit arena space or slots", o.ptype, o.pid));
+            } else {
+                self.bad("C16", "C16/poll-failed-with-local-resource-error", format!("op {op} ({kind:?}) returned {res:?}"));
+            }
+        }
         // refused requests must leave no trace on the wire
         if let Some(r) = rec.request {
             if self.req_matched[r] {
@@ -567,6 +579,17 @@ impl<'a> Model<'a> {
     }
 
     fn find_request(&self, p: &Packet, tr: usize, only_op: Option<usize>) -> Option<usize> {
+        // Requests with identical content are interchangeable on the wire. Among the candidates
+        // prefer the oldest one that keeps first transmissions in request order (if any
+        // order-preserving assignment exists this greedy choice finds it); only if there is none
+        // take the oldest, which the order rule will then report.
+        let last_op = self
+            .flights
+            .iter()
+            .filter(|f| f.epoch == self.epoch)
+            .filter_map(|f| f.req.map(|q| self.v.trace.requests[q].op))
+            .max();
+        let mut fallback = None;
         for (ri, r) in self.v.trace.requests.iter().enumerate() {
             if self.req_matched[ri] || r.op < self.epoch_first_op || r.op >= self.ops_started {
                 continue;
@@ -584,10 +607,16 @@ impl<'a> Model<'a> {
                 }
             }
             if self.req_content_matches(r, p, tr) {
-                return Some(ri);
+                let id_bearing = p.pid().is_some();
+                if !id_bearing || last_op.is_none_or(|l| r.op > l) {
+                    return Some(ri);
+                }
+                if fallback.is_none() {
+                    fallback = Some(ri);
+                }
             }
         }
-        None
+        fallback
     }
 
     /// A packet that matches no eligible request: was it a locally refused one?
